@@ -105,4 +105,7 @@ def gen(rng, tier):
             c = [0] * (pos + 1); c[pos] = 1
             cases.append(["clock", "listener callback=%d" % cb, "m fam=br op=loadall rules=s0@r1@e2,s1@r1@r5",
                           "t0 m fam=br op=loadall rules=n1@r1@s5", "t1 build res=r1 dir=in", "t1 exit err=1", fmt(c), "probe"])
+            # only the threshold changes: the old breaker's statistic is taken over and the old breaker retired
+            cases.append(["clock", "listener callback=%d" % cb, "m fam=br op=loadall rules=s0@r1@e2,s1@r1@r5",
+                          "t0 m fam=br op=loadall rules=s0@r1@e3,s1@r1@r5", "t1 build res=r1 dir=in", "t1 exit err=1", fmt(c), "probe"])
     return cases
